@@ -29,7 +29,7 @@ OBLIGATIONS = ["NiftyVerif.C02." + t for t in (
     "weightApplier_spec", "weightApplier_modes", "distributor1_spec", "distributor1_adj_spec", "distributor_spec",
     "mask_spec", "mask_rows", "mask_adj_spec", "mask_adj_flagged", "pad1_plain_spec", "pad1_central_spec",
     "valueInserter_spec", "outerProduct_spec", "vdot_spec", "vdot_adj_spec", "diag_spec", "conjugation_involutive",
-    "conjugation_spec", "realizer_idempotent", "regrid1_spec", "regrid1_wf", "axisSelect_spec", "sliceIdx_spec", "shift1_inverse", "diagonalOp_spec", "models_wellformed", "mask_adjoint", "padder_adjoint", "regridding_adjoint", "distributor_adjoint", "matrixProduct1_spec", "transpose2_inverse_partial")]
+    "conjugation_spec", "realizer_idempotent", "regrid1_spec", "regrid1_wf", "axisSelect_spec", "sliceIdx_spec", "shift1_inverse", "diagonalOp_spec", "models_wellformed", "transpose_inverse", "subdomain_granularity", "squeeze_is_identity", "identity_ops_spec", "block_ops_spec", "block_ops_wellformed", "einsum_spec", "einsum_adjoint", "einsum_adjoint_identity", "coo_comp_apply", "alongAxes_spec", "sliceSel_spec", "parseSpaces_ok", "harmonic_coo_adjoint", "fieldInserter_spec", "extractAt_spec", "matrixProduct_spec", "mask_adjoint", "padder_adjoint", "regridding_adjoint", "distributor_adjoint", "matrixProduct1_spec", "transpose2_inverse_partial")]
 RULE = ("one case = (operator class, constructor configuration generated from RGSpace/UnstructuredDomain/DOFSpace tuples of "
         "1-3 sub-domains with axis lengths 1-4(5), spaces subset, index arrays, flags, weights, dtype); non-trivial = the "
         "operator was constructed and has at least one non-zero matrix entry; distinct by canonical JSON of the case")
@@ -98,25 +98,38 @@ def _impl(case, vec_x, vec_y, classes=None):
         if vec_x is not None:
             x = np.asarray(vec_x)
             dom, tgt = op.domain, op.target
+            single = case.get("dtype") in ("F", "C")
+            cdt, rdt = (np.complex64, np.float32) if single else (np.complex128, np.float64)
             if spec.doubled:
-                y = U.double(U.to_flat(op(U.from_flat(dom, U.undouble(x.real), np.complex128)), tgt))
+                y = U.double(U.to_flat(op(U.from_flat(dom, U.undouble(x.real), cdt)), tgt))
             else:
-                y = U.to_flat(op(U.from_flat(dom, x, np.complex128 if np.iscomplexobj(x) else np.float64)), tgt)
+                y = U.to_flat(op(U.from_flat(dom, x, cdt if np.iscomplexobj(x) else rdt)), tgt)
             out["Ax"] = U.canon_vec(y)
         if vec_y is not None and (op.capability & 2) and not spec.real_only_input.get(2, False):
             yv = np.asarray(vec_y)
             dom, tgt = op.domain, op.target
+            single = case.get("dtype") in ("F", "C")
+            cdt, rdt = (np.complex64, np.float32) if single else (np.complex128, np.float64)
             if spec.doubled:
-                z = U.double(U.to_flat(op.adjoint_times(U.from_flat(tgt, U.undouble(yv.real), np.complex128)), dom))
+                z = U.double(U.to_flat(op.adjoint_times(U.from_flat(tgt, U.undouble(yv.real), cdt)), dom))
             else:
-                z = U.to_flat(op.adjoint_times(U.from_flat(tgt, yv, np.complex128 if np.iscomplexobj(yv) else np.float64)), dom)
+                z = U.to_flat(op.adjoint_times(U.from_flat(tgt, yv, cdt if np.iscomplexobj(yv) else rdt)), dom)
             out["AHy"] = U.canon_vec(z)
         if hasattr(spec, "extras"):
             out.update(spec.extras(case, op))
     except Exception as e:
         return {"error": "apply:" + _errkind(e)}, op
-    if problems:
-        out["problems"] = sorted(set(f"{k}@{m}" for k, m in problems))
+    # side conditions of the property as part of the compared surface (the model is pure and lives on `rows`)
+    out["side"] = {"input_unchanged": not any(k == "mutated-input" for k, _ in problems),
+                   "output_on_declared_target": not any(k == "target-identity" for k, _ in problems)}
+    try:
+        import nifty.cl as ift
+        if isinstance(op.domain, ift.DomainTuple):
+            out["dshapes"] = [[int(v) for v in d.shape] for d in op.domain]
+        if isinstance(op.target, ift.DomainTuple):
+            out["tshapes"] = [[int(v) for v in d.shape] for d in op.target]
+    except Exception as e:
+        return {"error": "apply:" + _errkind(e)}, op
     return out, op
 
 
@@ -130,9 +143,10 @@ def _canon_model(m, spec, case):
             ent = [e for e in ent if e[1] % 2 == 0]
         modes[k] = U.densify_model(ent)
     out["modes"] = modes
-    for k in ("Ax", "AHy", "wgt", "tshapes", "tsizes"):
+    for k in ("Ax", "AHy", "wgt", "tshapes", "dshapes", "tsizes"):
         if k in m:
             out[k] = m[k]
+    out["side"] = {"input_unchanged": True, "output_on_declared_target": True}
     for k in getattr(spec, "drop_extras", lambda: [])():
         out.pop(k, None)
     return out
@@ -164,8 +178,8 @@ def oracle(case, classes=None):
     cls = case["cls"]
     rng = random.Random(zlib.crc32(json.dumps(case, sort_keys=True, default=str).encode()))
     sig = lambda kind, **kw: dict(cls=cls, kind=kind, **kw)
-    cplx = "c" in spec.dtypes and case.get("dtype", "f") == "c"
-    dt = np.complex128 if cplx else (np.float64 if case.get("dtype", "f") != "i" else np.int64)
+    cplx = "c" in spec.dtypes and case.get("dtype", "f") in ("c", "C")
+    dt = _dt(case) if (cplx or case.get("dtype", "f") in ("i", "f", "F")) else np.float64
     problems = []
     try:
         dom, tgt = op.domain, op.target
@@ -198,7 +212,7 @@ def oracle(case, classes=None):
                 ydt = dt
                 if spec.real_only_input.get(2, False):
                     y1 = y1.real
-                    ydt = np.float64
+                    ydt = np.float32 if dt == np.complex64 else np.float64
                 AHy = U.to_flat(U.apply_checked(op, U.from_flat(tgt, y1, ydt), 2, problems), dom)
                 lhs, rhs = _vdot(y1, Ax1), _vdot(AHy, x1)
                 if spec.doubled:
@@ -222,8 +236,11 @@ def oracle(case, classes=None):
                 continue
             d = op._dom(mode)
             if isinstance(d, ift.DomainTuple) and len(d) >= 1 and d.size > 0:
-                wrong = ift.DomainTuple.make(tuple(ift.UnstructuredDomain(dd.shape) if not isinstance(dd, ift.UnstructuredDomain)
-                                                   else ift.RGSpace(dd.shape) for dd in d))
+                try:
+                    wrong = ift.DomainTuple.make(tuple(ift.UnstructuredDomain(dd.shape) if not isinstance(dd, ift.UnstructuredDomain)
+                                                       else ift.RGSpace(dd.shape) for dd in d))
+                except Exception:
+                    continue            # no equal-shaped other domain exists (e.g. a zero-dimensional sub-domain)
                 try:
                     op.apply(ift.full(wrong, 1. + 0j if cplx else 1.), mode)
                     return (f"{cls}: mode {mode} accepted a field that lives on a different domain", sig("domain-check", mode=mode))
@@ -342,7 +359,7 @@ def run_table(ctx, classes, driver, per_class, per_mal, pid):
             lines2.append(line)
             probes.append((None, None))
             continue
-        cplx = case.get("dtype") == "c" and not spec.doubled
+        cplx = case.get("dtype") in ("c", "C") and not spec.doubled
         x = U.rand_int_vec(ctx.rng, m["cols"], cplx)
         y = U.rand_int_vec(ctx.rng, m["rows"], cplx)
         l2 = dict(line)
@@ -359,6 +376,10 @@ def run_table(ctx, classes, driver, per_class, per_mal, pid):
         cm = _canon_model(m, spec, case)
         if "error" not in impl and "AHy" not in impl:
             cm.pop("AHy", None)
+        if "error" not in impl:
+            for k in ("dshapes", "tshapes"):          # declared shapes are compared where the class model provides them
+                if k not in cm:
+                    impl.pop(k, None)
         ctx.stat("cls:" + case["cls"])
         ctx.stat("dtype:" + case.get("dtype", "f"))
         if "error" in impl:
